@@ -2,6 +2,7 @@ package main
 
 import (
 	"fmt"
+	"sort"
 	"strconv"
 	"sync"
 	"unicode/utf8"
@@ -69,6 +70,55 @@ func c20EndToEnd(t *gen.Tools, r *ev.Run, root, tier string) {
 			return
 		}
 		r.Distinct("e2e" + lit)
+	})
+	// several literals in ONE grammar (the reading of a literal must not depend on the others): chunks of six
+	// consecutive literals of the list, one token each; the start state must test exactly their code points
+	var gtexts []string
+	var gwant [][]rune
+	for i := 0; i+6 <= len(lits); i += 5 {
+		text := ""
+		set := map[rune]bool{}
+		for k, l := range lits[i : i+6] {
+			text += fmt.Sprintf("t%d : %s ;\n", k, l)
+			v, _, _, _ := strconv.UnquoteChar(l[1:], '\'')
+			set[v] = true
+		}
+		var w []rune
+		for v := range set {
+			w = append(w, v)
+		}
+		sort.Slice(w, func(a, b int) bool { return w[a] < w[b] })
+		gtexts = append(gtexts, text)
+		gwant = append(gwant, w)
+	}
+	sw.run(gtexts, nil, true, false, func(o *GenOut) {
+		mu.Lock()
+		defer mu.Unlock()
+		r.Add("end_to_end_multi_literal_grammars", 1)
+		r.Add("evaluations", 1)
+		if o.Res.Hang || o.Res.Exit != 0 {
+			r.Violate("c20", "e2e-multi "+oneLine(o.Text), fmt.Sprintf("gocc refuses a grammar of valid rune literals (exit %d): %s\n  grammar: %s", o.Res.Exit, oneLine(o.Res.Stdout+o.Res.Stderr), oneLine(o.Text)), map[string]any{"subject": "end-to-end", "grammar": o.Text})
+			return
+		}
+		if o.ReadErr != "" {
+			ev.Inconsistent("table reader cannot read the emitted lexer tables: %s", o.ReadErr)
+		}
+		var got []rune
+		ok := len(o.Lex.States) > 0
+		if ok {
+			for _, c := range o.Lex.States[0].Cases {
+				if c.Lo != c.Hi {
+					ok = false
+				}
+				got = append(got, c.Lo)
+			}
+		}
+		want := gwant[o.Idx]
+		if !ok || fmt.Sprint(got) != fmt.Sprint(want) {
+			r.Violate("c20", "e2e-multi "+oneLine(o.Text), fmt.Sprintf("the generated lexer's start state tests the runes %v, Go reads the literals as %v\n  grammar: %s", got, want, oneLine(o.Text)), map[string]any{"subject": "end-to-end", "grammar": o.Text})
+			return
+		}
+		r.Distinct("e2em" + oneLine(o.Text))
 	})
 	sw.checkCross()
 }
